@@ -33,38 +33,8 @@ Theorem C01_decoder_returns_the_layer_walk : forall (I : walk_inst) (a : var -> 
 Proof. exact walk_layer_solution_walk. Qed.
 Print Assumptions C01_decoder_returns_the_layer_walk.
 
-(* C02 (cyclic): kFlowDecompCycles' rows force sum_i W_i * x_i(e) = f(e) on every non-ignored edge, for
-   each of the three product encodings (Pi = 0 / Pi = W shortcuts of the safety optimisations, bit expansion) *)
-Theorem C02_kfdc_rows_force_flow : forall (I : kfdc_inst) (a : var -> Q),
-  sat a (encode_kfdc I) -> forall e, In e (kept_edges I) ->
-  (sumq (fun i => a (W i) * inject_Z (xint a i e)) (layers (c_k I)) == flow_of I e)%Q.
-Proof. exact kfdc_flow_explained. Qed.
-Print Assumptions C02_kfdc_rows_force_flow.
-
-Theorem C02_kept_edges_are_the_non_ignored_edges : forall I e, In e (kept_edges I) <->
-  In e (g_edges (c_graph I)) /\ mem_edge e (st_edges (c_graph I) ++ c_ignore I) = false.
-Proof. exact kept_edges_spec. Qed.
-Print Assumptions C02_kept_edges_are_the_non_ignored_edges.
-
-(* C09 (cyclic): cover rows => every non-ignored edge is used at least once by some layer's walk *)
-Theorem C09_kpcc_rows_force_cover : forall (I : kpcc_inst) (a : var -> Q) e,
-  sat a (encode_kpcc I) ->
-  In e (g_edges (pc_graph I)) -> mem_edge e (kpcc_ignore I) = false ->
-  exists i, In i (layers (pc_k I)) /\ (1 <= xint a i e)%Z.
-Proof. exact kpcc_covers. Qed.
-Print Assumptions C09_kpcc_rows_force_cover.
-
-Theorem C09_kpcc_layer_is_one_walk : forall (I : kpcc_inst) (a : var -> Q) i,
-  let G := pc_graph I in
-  wf_stg G -> o_allow_empty (pc_opts I) = false -> sat a (encode_kpcc I) -> In i (layers (pc_k I)) ->
-  exists w, reconstruct (resid (g_edges G) (xint a i)) (g_src G) = Some ([], w) /\
-            hd_error w = Some (g_src G) /\ last w (g_src G) = g_snk G /\
-            (forall e, In e (g_edges G) -> count_e e (pairs w) = Z.to_nat (xint a i e)) /\
-            (forall e, ~ In e (g_edges G) -> count_e e (pairs w) = 0%nat).
-Proof. exact kpcc_layer_is_one_walk. Qed.
-Print Assumptions C09_kpcc_layer_is_one_walk.
 
 (* non-vacuity: the premises are satisfiable (self-loop instance, solved with one walk going round once) *)
-Example WalkCommon_premises_satisfiable :
+Example C01_walk_premises_satisfiable :
   wf_stg loopG /\ sat loop_sol (encode_kfdc (loop_inst 1)) /\ sat loop_sol (encode_kpcc loop_kpcc).
 Proof. split; [exact loopG_wf|]. split; [exact loop_feasible|exact loop_kpcc_feasible]. Qed.
